@@ -35,7 +35,12 @@ class C01(Prop):
         # spelling with '/' for '.': a plain key is taken as it is, at the root and in nested dictionaries
         fixed = [{"server.port": 8080, "server": {"port": 1}, "d": {"file.txt": "x", "v1.2": {"a.b": 2, "a": {"b": 3}}}},
                  {"cfg": {"log.level": "info", "log": {"level": "debug"}, "paths": [{"a.b": 1}, {"a": {"b": 2}}]}, "x.y.z": 0},
-                 {"a": {"b.c": [1, {"d.e": 5}]}, "b.c": "top"}]
+                 {"a": {"b.c": [1, {"d.e": 5}]}, "b.c": "top"},
+                 # keys that begin with '.', at the root and nested, next to the key without the dot; keys made of digits in
+                 # dictionaries (a digit-only step below a dictionary is a key, never an index)
+                 {".cfg": {"x": 1, ".y": 2}, "cfg": {"x": 3}, ".": {"a": 4}, "..a": 5},
+                 {"a": {"0": {"b": 1}, "2024": 5, "-1": [7, {"0": 8}]}, "0": {"1": "x"}},
+                 {"m": [{"0": "zero", "1": {"0": "deep"}}], "7": [1, 2]}]
         for n_tree in range(ntrees):
             root = rng.choice(["dict", "dict", "list"])
             t = X.gen_tree(rng, 4, root=root)
@@ -53,6 +58,8 @@ class C01(Prop):
                     else:
                         par["twin"] = copy.deepcopy(v)
             mode = rng.choice(["convert", "convert", "wrap", "json"])
+            if n_tree < len(fixed):
+                mode = ["convert", "wrap", "json"][n_tree % 3] if n_tree < 3 else rng.choice(["wrap", "wrap", "convert", "json"])
             if root == "dict":
                 out.append({"stream": "enum", "tag": "enum:" + mode, "input": {"tree": t, "mode": mode}})
                 nodes0 = list(X.node_paths(t))
@@ -65,7 +72,7 @@ class C01(Prop):
             leaves = list(X.leaf_paths(t))
             nodes = list(X.node_paths(t))
             rng.shuffle(leaves)
-            for path, _v in leaves[:6]:
+            for path, _v in (leaves if n_tree < len(fixed) else leaves[:6]):
                 if not path:
                     continue
                 for kind in (0, 1, 2):
